@@ -21,3 +21,59 @@ Theorem C16_point_in_both_boxes :
   intersection a1 a2 b1 b2 = LPoint q ->
   okpt L q /\ in_seg_box a1 a2 q /\ in_seg_box b1 b2 q.
 Proof. exact intersection_point_in_both_boxes. Qed.
+
+(** ** the step itself, exact instance *)
+From Coq Require Import List PArith.
+From GB Require Import Event Outcome Divide LinkProofs PiProofs.
+
+(** disjoint closed segments are reported as such and left untouched *)
+Theorem C16_disjoint_untouched :
+  forall cfg (s : sq NQ) (se1 se2 other1 other2 : eid) (p1x p1y o1x o1y p2x p2y o2x o2y : Q),
+  e_other (getE (sq_st s) se1) = Some other1 -> e_other (getE (sq_st s) se2) = Some other2 ->
+  e_point (getE (sq_st s) se1) = fpt p1x p1y -> e_point (getE (sq_st s) other1) = fpt o1x o1y ->
+  e_point (getE (sq_st s) se2) = fpt p2x p2y -> e_point (getE (sq_st s) other2) = fpt o2x o2y ->
+  ~ (o1x == p1x /\ o1y == p1y) ->
+  disjoint_segments p1x p1y o1x o1y p2x p2y o2x o2y ->
+  possible_intersection cfg s se1 se2 = Ok (s, 0%nat).
+Proof. exact pi_disjoint. Qed.
+
+(** a single meeting point with a shared left or right endpoint: untouched, code 0 *)
+Theorem C16_common_endpoint_untouched :
+  forall cfg (s : sq NQ) (se1 se2 other1 other2 : eid) (p1x p1y o1x o1y p2x p2y o2x o2y : Q),
+  e_other (getE (sq_st s) se1) = Some other1 -> e_other (getE (sq_st s) se2) = Some other2 ->
+  e_point (getE (sq_st s) se1) = fpt p1x p1y -> e_point (getE (sq_st s) other1) = fpt o1x o1y ->
+  e_point (getE (sq_st s) se2) = fpt p2x p2y -> e_point (getE (sq_st s) other2) = fpt o2x o2y ->
+  forall i, intersection (fpt p1x p1y) (fpt o1x o1y) (fpt p2x p2y) (fpt o2x o2y) = LPoint i ->
+  (pt_eq (fpt p1x p1y) (fpt p2x p2y) || pt_eq (fpt o1x o1y) (fpt o2x o2y))%bool = true ->
+  possible_intersection cfg s se1 se2 = Ok (s, 0%nat).
+Proof. exact pi_common_endpoint. Qed.
+
+(** a meeting point that is an endpoint of each segment: neither is divided *)
+Theorem C16_endpoint_of_both_untouched :
+  forall cfg (s : sq NQ) (se1 se2 other1 other2 : eid) (p1x p1y o1x o1y p2x p2y o2x o2y : Q),
+  e_other (getE (sq_st s) se1) = Some other1 -> e_other (getE (sq_st s) se2) = Some other2 ->
+  e_point (getE (sq_st s) se1) = fpt p1x p1y -> e_point (getE (sq_st s) other1) = fpt o1x o1y ->
+  e_point (getE (sq_st s) se2) = fpt p2x p2y -> e_point (getE (sq_st s) other2) = fpt o2x o2y ->
+  forall i, intersection (fpt p1x p1y) (fpt o1x o1y) (fpt p2x p2y) (fpt o2x o2y) = LPoint i ->
+  (pt_eq (fpt p1x p1y) i || pt_eq (fpt o1x o1y) i)%bool = true ->
+  (pt_eq (fpt p2x p2y) i || pt_eq (fpt o2x o2y) i)%bool = true ->
+  exists code, possible_intersection cfg s se1 se2 = Ok (s, code).
+Proof. exact pi_endpoint_of_both. Qed.
+
+(** one common point: every event the step creates lies at THE SAME point — the point
+    [intersection] returned, which (C16_intersection_exact) is a common point of both
+    segments.  The one-ulp bump of divide_segment is the identity over exact arithmetic:
+    finding N2 is a floating-point phenomenon only. *)
+Theorem C16_new_events_at_one_point :
+  forall cfg (s s' : sq NQ) (se1 se2 : eid) (code : nat) (i : pt NQ),
+  sqinv NQ s -> mapped NQ (sq_st s) se1 -> mapped NQ (sq_st s) se2 ->
+  (forall other1 other2, e_other (getE (sq_st s) se1) = Some other1 -> e_other (getE (sq_st s) se2) = Some other2 ->
+     intersection (e_point (getE (sq_st s) se1)) (point_of (sq_st s) other1)
+                  (e_point (getE (sq_st s) se2)) (point_of (sq_st s) other2) = LPoint i) ->
+  possible_intersection cfg s se1 se2 = Ok (s', code) ->
+  forall k, mapped NQ (sq_st s') k -> ~ mapped NQ (sq_st s) k -> e_point (getE (sq_st s') k) = i.
+Proof. exact pi_new_events_at_common_point. Qed.
+
+Theorem C16_bump_is_identity_over_exact_arithmetic :
+  forall (p : pt NQ) (c : bool), (if c then mkPt NQ (next_upX NQ (px p)) (py p) else p) = p.
+Proof. exact bump_dead_exact. Qed.
